@@ -576,6 +576,11 @@ structure MseAlgebra (cr : MseCrypto) (xa xb : Bytes) : Prop where
   hashLen : ∀ b, (cr.hash b).length = 20
   /-- Diffie-Hellman: both ends compute the same secret -/
   dh : cr.dh xa (cr.pub xb) = cr.dh xb (cr.pub xa)
+  /-- … in the same FIXED-WIDTH encoding: 96 bytes, leading zero bytes included (as are Ya, Yb:
+      `pubA`, `pubB`).  What is hashed into req1/req3/keyA/keyB is this byte string; that the Go
+      code pads (`FillBytes`) rather than strips is tied by the forced-leading-zero cases of
+      the C07 stream. -/
+  dhLen : (cr.dh xa (cr.pub xb)).length = 96
 
 /-- `bytes.Index(pad ++ rest, v)` is `len(pad)`: the marker `synchronise` looks for does not
     occur earlier (inside the random padding or straddling its end) -/
@@ -977,6 +982,7 @@ theorem realAlgebra : MseAlgebra realCr xa0 xb0 where
   notHeader := by decide +kernel
   hashLen := sha1_length
   dh := by decide +kernel
+  dhLen := fillBytes_length _ _
 
 /-- both ends prefer encryption: RC4 is negotiated, the whole conclusion of `C07_agree_mse`
     holds for the real cryptography, one-byte-per-chunk or any other segmentation -/
